@@ -359,7 +359,9 @@ class C06Monitor(Monitor):
         self.timed = [n for n in f.holders if f.kind[n] in ('handler', 'proc', 'sink')]
         self.src = {}
         for n in f.sources:
-            self.src[n] = {'t0': 0, 'eff': max(0, f.dspec[n]['ct']), 'gen': 0, 'left': 0}
+            # the first cycle starts at initialisation and consumes the offsets requested before the run
+            self.src[n] = {'t0': 0, 'eff': max(0, f.dspec[n]['ct'] + f.pending_offset[n]), 'gen': 0, 'left': 0}
+            f.pending_offset[n] = 0
         self.sink_prev = {}
 
     def after_step(self, f, e):
@@ -685,6 +687,7 @@ class C16Monitor(Monitor):
         self.maint_cost = 0
         self.wo_seen = 0
         self.initial = {}
+        self.built_assets = list(f.system._assets)      # everything the builder constructed before the first run
 
     def check_asset(self, f, a, now, label):
         hist = a.value_history
@@ -757,9 +760,13 @@ class C16Monitor(Monitor):
                     if item.value != sv:
                         f.fail('C16.f', f'batch {item.name} is worth {item.value}, its parts sum to {sv}', 'batch_value')
         net = f.system.get_net_value_of_assets()
-        tot = sum(a.value for a in f.system._assets)
+        known = self.built_assets + f.late_assets
+        tot = sum(a.value for a in known)
         if net != tot:
-            f.fail('C16.g', f'net value {net} != sum over registered assets {tot}', 'net')
+            f.fail('C16.g', f'net value {net} != sum over the {len(known)} registered assets {tot} '
+                   f'({len(f.late_assets)} of them created during the run)', 'net')
+        for a in f.late_assets:
+            self.check_asset(f, a, now, a.name)
         self.ev(f, 'C16', len(f.system._assets))
 
 
@@ -838,6 +845,22 @@ class C17Monitor(Monitor):
             if o._in_progress_batch is not None and size and len(o._in_progress_batch.parts) >= size:
                 f.fail('C17.b', f'batcher {n} keeps {len(o._in_progress_batch.parts)} parts in an open batch of '
                        f'size {size}', 'overfull')
+        # (e) every routing-history update of a batch reached all the parts it contains: a part's history ends with
+        # the history the batch has accumulated (all of a part's history for batches made by a source)
+        for n in f.holders:
+            for slot, item in f.slots(n):
+                if not isinstance(item, lib.Batch) or slot == 'inprog':
+                    continue
+                bh = item.routing_history
+                if not bh:
+                    continue
+                for p in item.parts:
+                    ph = p.routing_history
+                    ok = ph[-len(bh):] == bh and (id(item) not in f.item_src or len(ph) == len(bh))
+                    if not ok:
+                        f.fail('C17.e', f'batch {item.name} at {n} has routing history {[d.name for d in bh]} but its part '
+                               f'{p.name} has {[d.name for d in ph]}', 'batch_history_sync')
+                self.ev(f, 'C17.e')
         # (d) sinks and buffers count leaves
         for n in f.sinks:
             o = f.dev[n]
